@@ -50,18 +50,15 @@ namespace ci = cds::intrusive;
 
 template <class Q>
 struct value_adapter {
-    Q q;
-    bool enq( long v ) { return q.enqueue( (int) v ); }
-    bool deq( long& v ) { int d = 0; bool b = q.dequeue( d ); v = b ? d : 0; return b; }
-    void finish() {}
+    std::unique_ptr<Q> q;
+    value_adapter() : q( new Q ) {}
+    bool enq( long v ) { return q->enqueue( (int) v ); }
+    bool deq( long& v ) { int d = 0; bool b = q->dequeue( d ); v = b ? d : 0; return b; }
+    void finish() { q.reset(); }
 };
 
-// intrusive queues: items are allocated by the harness and never freed during a case (the disposer only
-// records the call); they are released after the case by `finish`
-struct garbage {
-    static std::vector<void*>& list() { static std::vector<void*> l; return l; }
-};
-
+// intrusive queues: items are allocated by the harness and never freed during a case (the disposer does
+// nothing); they are released by `finish` after the queue is destroyed and the SMR has run its disposers
 template <class Item>
 struct keep_disposer {
     void operator()( Item* ) const {}     // the item stays allocated until the end of the case
@@ -69,28 +66,34 @@ struct keep_disposer {
 
 template <class Q, class Item>
 struct intrusive_adapter {
-    Q q;
-    std::vector<Item*> items[8];    // per worker, freed after the case (index 7: main)
+    std::unique_ptr<Q> q;
+    std::vector<Item*> items[8];    // per worker (index 7: main)
+    intrusive_adapter() : q( new Q ) {}
     bool enq( long v )
     {
         int t = vs::my_tid(); if ( t < 0 || t > 6 ) t = 7;
         Item* p = new Item; p->v = (int) v;
         items[t].push_back( p );
-        return q.enqueue( *p );
+        return q->enqueue( *p );
     }
     bool deq( long& v )
     {
-        Item* p = q.dequeue();
+        Item* p = q->dequeue();
         v = p ? p->v : 0;
         return p != nullptr;
     }
-    void finish() {}
-    ~intrusive_adapter() {}
+    void finish()
+    {
+        q.reset();
+        cds::gc::HP::force_dispose();       // runs clear_links + disposer of everything main has retired
+        cds::gc::DHP::force_dispose();
+        for ( auto& l : items ) { for ( Item* p : l ) delete p; l.clear(); }
+    }
 };
 
 // ---------------------------------------------------------------------------------------------------------
 template <class A>
-void run_one( vcase::Case const& c, bool attach_gc )
+void run_one( vcase::Case const& c )
 {
     std::unique_ptr<A> a( new A );
     vcase::run_workers( c, [&]( int t ) {
@@ -110,8 +113,8 @@ void run_one( vcase::Case const& c, bool attach_gc )
             }
         }
     },
-    [&]( int ) { if ( attach_gc ) cds::threading::Manager::attachThread(); },
-    [&]( int ) { if ( attach_gc ) cds::threading::Manager::detachThread(); },
+    [&]( int ) { cds::threading::Manager::attachThread(); },
+    [&]( int ) { cds::threading::Manager::detachThread(); },
     20000 );
     vcase::print_log( c );
     // monitor: what is left in the queue, dequeued sequentially (main thread, not scheduled, not logged)
@@ -127,25 +130,10 @@ void run_one( vcase::Case const& c, bool attach_gc )
 }
 
 // ---------------------------------------------------------------------------------------------------------
-// traits
-struct tr_ic      : public cc::
+// traits and item types
 #if C06_GROUP <= 1
-    msqueue
-#elif C06_GROUP == 2
-    basket_queue
-#elif C06_GROUP == 3
-    optimistic_queue
-#else
-    rwqueue
-#endif
-    ::traits { typedef cds::atomicity::item_counter item_counter; };
-
-#if C06_GROUP <= 1
+struct tr_ic      : public cc::msqueue::traits { typedef cds::atomicity::item_counter item_counter; };
 struct tr_sc      : public cc::msqueue::traits { typedef cds::opt::v::sequential_consistent memory_model; };
-struct tr_ic_sc   : public tr_ic { typedef cds::opt::v::sequential_consistent memory_model; };
-#endif
-
-#if C06_GROUP == 1
 template <class GC> struct ms_item : public ci::msqueue::node<GC> { int v; };
 template <class GC> struct ms_itraits : public ci::msqueue::traits {
     typedef ci::msqueue::base_hook< cds::opt::gc<GC> > hook;
@@ -157,6 +145,28 @@ template <class GC> struct ms_mtraits : public ci::msqueue::traits {
     typedef ci::msqueue::member_hook< offsetof( ms_mitem<GC>, hook ), cds::opt::gc<GC> > hook;
     typedef keep_disposer< ms_mitem<GC> > disposer;
 };
+#elif C06_GROUP == 2
+struct tr_ic      : public cc::basket_queue::traits { typedef cds::atomicity::item_counter item_counter; };
+struct tr_sc      : public cc::basket_queue::traits { typedef cds::opt::v::sequential_consistent memory_model; };
+template <class GC> struct bq_item : public ci::basket_queue::node<GC> { int v; };
+template <class GC> struct bq_itraits : public ci::basket_queue::traits {
+    typedef ci::basket_queue::base_hook< cds::opt::gc<GC> > hook;
+    typedef keep_disposer< bq_item<GC> > disposer;
+};
+#elif C06_GROUP == 3
+struct tr_ic      : public cc::optimistic_queue::traits { typedef cds::atomicity::item_counter item_counter; };
+struct tr_sc      : public cc::optimistic_queue::traits { typedef cds::opt::v::sequential_consistent memory_model; };
+template <class GC> struct oq_item : public ci::optimistic_queue::node<GC> { int v; };
+template <class GC> struct oq_itraits : public ci::optimistic_queue::traits {
+    typedef ci::optimistic_queue::base_hook< cds::opt::gc<GC> > hook;
+    typedef keep_disposer< oq_item<GC> > disposer;
+};
+#elif C06_GROUP == 4
+struct rw_ic      : public cc::rwqueue::traits { typedef cds::atomicity::item_counter item_counter; };
+struct fc_elim    : public cc::fcqueue::traits { static constexpr const bool enable_elimination = true; };
+struct fc_item : public boost::intrusive::list_base_hook<> { int v; };
+struct fci_elim   : public ci::fcqueue::traits { static constexpr const bool enable_elimination = true; };
+typedef boost::intrusive::list< fc_item > fc_ilist;
 #endif
 
 int main( int argc, char** argv )
@@ -170,16 +180,56 @@ int main( int argc, char** argv )
         cds::threading::Manager::attachThread();
         std::ifstream in( argv[1] );
         vcase::Case c;
+        typedef cds::gc::HP HP;
+        typedef cds::gc::DHP DHP;
         while ( vcase::read_case( in, c )) {
             long variant = c.cfg.size() > 4 ? c.cfg[4] : 0;     // cfg[0..3] are read by the model only
             switch ( variant ) {
 #if C06_GROUP == 0
-            case 0: run_one< value_adapter< cc::MSQueue< cds::gc::HP, int > > >( c, true ); break;
-            case 1: run_one< value_adapter< cc::MoirQueue< cds::gc::HP, int > > >( c, true ); break;
-            case 2: run_one< value_adapter< cc::MSQueue< cds::gc::HP, int, tr_ic > > >( c, true ); break;
-            case 3: run_one< value_adapter< cc::MoirQueue< cds::gc::HP, int, tr_ic > > >( c, true ); break;
-            case 4: run_one< value_adapter< cc::MSQueue< cds::gc::DHP, int > > >( c, true ); break;
-            case 5: run_one< value_adapter< cc::MoirQueue< cds::gc::DHP, int > > >( c, true ); break;
+            // value-copying MSQueue / MoirQueue: modelled step by step (LV.Model.MSQueue)
+            case 0: run_one< value_adapter< cc::MSQueue< HP, int > > >( c ); break;
+            case 1: run_one< value_adapter< cc::MoirQueue< HP, int > > >( c ); break;
+            case 2: run_one< value_adapter< cc::MSQueue< HP, int, tr_ic > > >( c ); break;
+            case 3: run_one< value_adapter< cc::MoirQueue< HP, int, tr_ic > > >( c ); break;
+            case 4: run_one< value_adapter< cc::MSQueue< DHP, int > > >( c ); break;
+            case 5: run_one< value_adapter< cc::MoirQueue< DHP, int > > >( c ); break;
+            case 6: run_one< value_adapter< cc::MSQueue< HP, int, tr_sc > > >( c ); break;
+            case 7: run_one< value_adapter< cc::MoirQueue< HP, int, tr_sc > > >( c ); break;
+            case 8: run_one< value_adapter< cc::MSQueue< DHP, int, tr_ic > > >( c ); break;
+            case 9: run_one< value_adapter< cc::MoirQueue< DHP, int, tr_ic > > >( c ); break;
+#elif C06_GROUP == 1
+            // intrusive MSQueue / MoirQueue (items allocated by the harness)
+            case 10: run_one< intrusive_adapter< ci::MSQueue< HP, ms_item<HP>, ms_itraits<HP> >, ms_item<HP> > >( c ); break;
+            case 11: run_one< intrusive_adapter< ci::MoirQueue< HP, ms_item<HP>, ms_itraits<HP> >, ms_item<HP> > >( c ); break;
+            case 12: run_one< intrusive_adapter< ci::MSQueue< DHP, ms_item<DHP>, ms_itraits<DHP> >, ms_item<DHP> > >( c ); break;
+            case 13: run_one< intrusive_adapter< ci::MoirQueue< DHP, ms_item<DHP>, ms_itraits<DHP> >, ms_item<DHP> > >( c ); break;
+            case 14: run_one< intrusive_adapter< ci::MSQueue< HP, ms_item<HP>, ms_itraits_ic<HP> >, ms_item<HP> > >( c ); break;
+            case 15: run_one< intrusive_adapter< ci::MoirQueue< HP, ms_item<HP>, ms_itraits_ic<HP> >, ms_item<HP> > >( c ); break;
+            case 16: run_one< intrusive_adapter< ci::MSQueue< HP, ms_mitem<HP>, ms_mtraits<HP> >, ms_mitem<HP> > >( c ); break;
+            case 17: run_one< intrusive_adapter< ci::MoirQueue< DHP, ms_mitem<DHP>, ms_mtraits<DHP> >, ms_mitem<DHP> > >( c ); break;
+#elif C06_GROUP == 2
+            case 20: run_one< value_adapter< cc::BasketQueue< HP, int > > >( c ); break;
+            case 21: run_one< value_adapter< cc::BasketQueue< DHP, int > > >( c ); break;
+            case 22: run_one< value_adapter< cc::BasketQueue< HP, int, tr_ic > > >( c ); break;
+            case 23: run_one< value_adapter< cc::BasketQueue< HP, int, tr_sc > > >( c ); break;
+            case 24: run_one< intrusive_adapter< ci::BasketQueue< HP, bq_item<HP>, bq_itraits<HP> >, bq_item<HP> > >( c ); break;
+            case 25: run_one< intrusive_adapter< ci::BasketQueue< DHP, bq_item<DHP>, bq_itraits<DHP> >, bq_item<DHP> > >( c ); break;
+#elif C06_GROUP == 3
+            case 30: run_one< value_adapter< cc::OptimisticQueue< HP, int > > >( c ); break;
+            case 31: run_one< value_adapter< cc::OptimisticQueue< DHP, int > > >( c ); break;
+            case 32: run_one< value_adapter< cc::OptimisticQueue< HP, int, tr_ic > > >( c ); break;
+            case 33: run_one< value_adapter< cc::OptimisticQueue< HP, int, tr_sc > > >( c ); break;
+            case 34: run_one< intrusive_adapter< ci::OptimisticQueue< HP, oq_item<HP>, oq_itraits<HP> >, oq_item<HP> > >( c ); break;
+            case 35: run_one< intrusive_adapter< ci::OptimisticQueue< DHP, oq_item<DHP>, oq_itraits<DHP> >, oq_item<DHP> > >( c ); break;
+#elif C06_GROUP == 4
+            case 40: run_one< value_adapter< cc::RWQueue< int > > >( c ); break;
+            case 41: run_one< value_adapter< cc::RWQueue< int, rw_ic > > >( c ); break;
+            // flat combining, default wait strategy (back-off: spins on atomics), spin lock
+            case 42: run_one< value_adapter< cc::FCQueue< int > > >( c ); break;
+            case 43: run_one< value_adapter< cc::FCQueue< int, std::queue<int>, fc_elim > > >( c ); break;
+            case 44: run_one< value_adapter< cc::FCQueue< int, std::queue< int, std::list<int> >, fc_elim > > >( c ); break;
+            case 45: run_one< intrusive_adapter< ci::FCQueue< fc_item, fc_ilist >, fc_item > >( c ); break;
+            case 46: run_one< intrusive_adapter< ci::FCQueue< fc_item, fc_ilist, fci_elim >, fc_item > >( c ); break;
 #endif
             default:
                 std::printf( "case %s\nendcase unknown-variant\n", c.id.c_str());
